@@ -337,7 +337,12 @@ def run(p: Program, rep: Report, tier: str) -> None:
             body = par.body if hasattr(par, "body") and gets[0] in par.body else []
             after = body[body.index(gets[0]) + 1:] if body else []
             src = ast.unparse(ast.Module(body=after, type_ignores=[]))
-            if src.startswith(f"if {ev} is None:\n    break\nyield build_bytes_from_sse({ev}, self.charset)"):
+            # `if <ev> is None: break` then `yield <encoder>(<ev>, ...)` - the encoder being the shared function or a method that wraps it
+            shape_ok = len(after) >= 2 and isinstance(after[0], ast.If) and ast.unparse(after[0].test) == f"{ev} is None" and len(after[0].body) == 1 and isinstance(after[0].body[0], ast.Break) \
+                and not after[0].orelse and isinstance(after[1], ast.Expr) and isinstance(after[1].value, ast.Yield) and isinstance(after[1].value.value, ast.Call) \
+                and any(isinstance(a_, ast.Name) and a_.id == ev for a_ in after[1].value.value.args) \
+                and not any(isinstance(x, ast.Yield) for st_ in after[2:] for x in ast.walk(st_))
+            if shape_ok or src.startswith(f"if {ev} is None:\n    break\nyield build_bytes_from_sse({ev}, self.charset)"):
                 rep.ok("R6.4", f"{side}: every dequeued item is yielded exactly once; None ends the stream")
             else:
                 rep.violation("R6.4", construct(rs, text="dequeue-to-yield"), where(rs, gets[0]), f"{side}: a dequeued event is not always yielded (or is yielded more than once) before the next dequeue")
